@@ -97,8 +97,15 @@ CLAIMED['C14'] = dict(
          'SignMessage output is base64 of 65 bytes whose header is 27 + recid + 4*compressed for a symbolic recid and (r,s); VerifyMessage passes r, s, digest, recid and the compression flag to recovery '
          'and returns true iff the recovered key hashes to the given address. The concrete twin (witness validation / replay) runs the real OpenSSL path: sign, verify for the signer, reject other address / other message.',
     note='that recovery of a genuine signature returns the signer key is an ASSUMPTION of the symbolic run (OpenSSL behind ctypes, not decidable here); see DESIGN.md section 6.')
+CLAIMED['C05'] = dict(
+    text=_T + 'MODULO AN IDEALISED ECDSA: for P2PK, P2PKH, 1-of-2 and 2-of-3 multisig and their P2SH wrappings, a 3-input/3-output symbolic transaction, every signing position, '
+         'a symbolic hash-type byte within each class ({ALL,NONE,SINGLE} x {,ANYONECANPAY}, undefined) and an 18-entry edit catalogue: the input signed over the reference sighash is accepted by VerifyScript, '
+         'a signature by another key is rejected, and after the edit (new value symbolic, assumed different) verification fails exactly when an explicit reference commitment table says the edit is committed. '
+         'The concrete twin signs with the real CKey and verifies with real OpenSSL.',
+    note='the ECDSA contract (a signature verifies for exactly the key and digest it was made for, distinct signing events give distinct signatures) is an assumption of the symbolic run; '
+         'double-SHA256 collision-free on the path; mutations inside key.py are not detected by the symbolic run (C13 not applicable), only by the concrete twin.')
 _UC = 'check not built yet in this round (engine exists; harness pending) - will be claimed or declared not applicable with its real reason'
-for _i in ['C05','C19']:
+for _i in ['C19']:
     NA[_i] = _UC
 NA['C13'] = ('key derivation, signing, verification and point validity are computed by OpenSSL through ctypes: there is no Python or IR to execute '
              'symbolically, and the reference (secp256k1 group law, 256-bit modular inversion) is non-linear 256-bit arithmetic out of reach of z3/cvc5')
